@@ -6,7 +6,7 @@ import ast
 
 from ..cfg import CFG, walk_shallow
 from ..facts import MULTISET_PRESERVING, calls_in, field_writes, is_self_call, is_super_call
-from ..index import ClassInfo, FuncInfo, dotted_of, norm, own_nodes
+from ..index import ClassInfo, FuncInfo, dotted_of, norm, own_nodes, short
 
 PROPERTY = "C01"
 RULES = {
@@ -17,15 +17,19 @@ RULES = {
     "R2": "who-may-write: bookkeeping fields are written only by the frozen writer table",
     "R3": "paired updates: Node._inputs stores pair with usage updates; Graph._nodes mutators pair with "
     "node.graph updates; input/output hooks agree; the name setter re-keys initializers; dropped "
-    "outputs lose their producer link",
+    "outputs lose their producer link"
+    " ; a use is removed before the new one is added (re-setting an input to the value it already holds keeps the use)",
     "R4": "producer ⟂ input/initializer: a non-None producer is only stored after testing the value's "
     "input/initializer flags, and the input/initializer flag is only set after testing producer()",
     "R5": "integrity of the node container behind Graph._nodes (shared with C11-R3): length and id→box map change "
     "together, every insertion goes through the one splicing primitive, a present value is unlinked before it is "
     "re-linked, the anchor's successor is read after that unlinking, and exactly four link writes splice the new box - "
     "otherwise len(graph), iteration and node.graph disagree about which nodes the graph holds",
+    "R6": "bookkeeping survives a rejected call (C06's analysis restricted to the use-def / ownership fields): in every "
+    "public mutator, no write to a producer link, output index, use list, ownership flag, owning graph, node input/output "
+    "tuple or node list precedes a point that can still reject - 'whether the individual calls succeed or raise'",
 }
-FLOORS = {"R1": 30, "R1b": 4, "R2": 70, "R3": 10, "R4": 4, "R5": 8}
+FLOORS = {"R1": 30, "R1b": 4, "R2": 70, "R3": 10, "R4": 4, "R5": 8, "R6": 40}
 EXPLANATION = (
     "Enumerates every method of collections.UserList/UserDict (parsed from the interpreter's own "
     "source) that writes self.data and checks how GraphInputs/GraphOutputs/GraphInitializers resolve "
@@ -786,7 +790,44 @@ def _loop_precedes(ifnode, stmt) -> bool:
     return same and a.lineno < b.lineno and getattr(a, "_parent", None) is getattr(b, "_parent", None)
 
 
+BOOKKEEPING_Q = ("Value._producer", "Value._index", "Value._uses", "Value._graph", "Value._is_graph_input", "Value._is_graph_output",
+                 "Value._is_initializer", "Node._graph", "Node._inputs", "Node._outputs", "Graph._nodes", "DoublyLinkedSet._length",
+                 "DoublyLinkedSet._value_ids_to_boxes", "_LinkBox.prev", "_LinkBox.next", "_LinkBox.value")
+
+
+def rule_r6(ctx):
+    import hashlib
+    import re as _re
+
+    from ..effects import Effects
+    from . import c06
+
+    ef = ctx._shared.get("effects")
+    if ef is None:
+        ef = ctx._shared["effects"] = Effects(ctx.repo, ctx.typer, tier4=(ctx.tier == "thorough"))
+    ef.compute()
+    used: dict = {}
+    muts = c06.mutators(ctx)
+    own = frozenset(f.key for f in muts)
+    for f in muts:
+        sites = c06.analyse_mutator(ef, f, used, own)
+        bad = [(m, c, u) for m, c, u, _ in sites if u and (set(m.qfields) & set(BOOKKEEPING_Q))]
+        if not bad:
+            ctx.ob("R6", f"{f.local}: no bookkeeping write precedes a feasible rejection", True,
+                   how="C06 forward may-analysis (M before C) filtered to use-def / ownership fields")
+            continue
+        for m, c, undis in bad:
+            guards = sorted(r.key for r in undis)
+            h = hashlib.sha1("|".join(_re.sub(r"\$\d+", "$", g) for g in guards).encode()).hexdigest()[:6]
+            ctx.ob("R6", f"{f.local}: {short(m.node)[:50]} … then {short(c.node)[:50]}", False, how="M on a bookkeeping field reaches C")
+            ctx.violation("R6", f, c.node,
+                          f"a bookkeeping field ({sorted(set(m.qfields) & set(BOOKKEEPING_Q))}) is written ({m.desc}) and a later point on the same "
+                          "path can still reject: " + "; ".join(guards[:3]) + " - after the rejected call the use-def / ownership links are inconsistent",
+                          construct=f"{short(m.node)[:70]} => {short(c.node)[:70]} [guards:{h}]")
+
+
 def run(ctx):
+    rule_r6(ctx)
     from . import c11
 
     c11.rule_r3(ctx, rule="R5")
